@@ -156,15 +156,22 @@ NEUTRAL_FLAVOUR[7] = (
     "For r2 the requirement below not to rename what the tests use is lifted: change the tests in the same patch, keeping the 65 test ids as they are.")
 
 
+# round 8: round 7 again with new authors (how far do the premise imports and the move / signature pre-pass carry?)
+SEED_FLAVOUR[8] = SEED_FLAVOUR[7]
+NEUTRAL_FLAVOUR[8] = ("ROUND-SPECIFIC INSTRUCTIONS (they override the numbers above): produce TWO variants r1 and r2 instead of three.\n" +
+                      NEUTRAL_FLAVOUR[7].split("  r3  ")[0] +
+                      "For r2 the requirement below not to rename what the tests use is lifted: change the tests in the same patch, keeping the 65 test ids as they are.")
+
+
 def sh(cmd):
     return subprocess.run(cmd, shell=True, capture_output=True, text=True)
 
 
 VERIF = os.path.dirname(os.path.dirname(os.path.abspath(__file__)))
 BASELINE = json.load(open("/root/.vp/BASELINE.json"))["stable_pass"]
-LETTERS = {3: {"a": "e", "b": "f"}, 4: {"a": "g", "b": "h"}, 5: {"a": "i", "b": "j"}, 6: {"a": "k", "b": "l", "c": "m", "d": "n"}, 7: {"a": "o", "b": "p"}}          # seeds: round -> variant -> suffix under /verif/seeded
+LETTERS = {3: {"a": "e", "b": "f"}, 4: {"a": "g", "b": "h"}, 5: {"a": "i", "b": "j"}, 6: {"a": "k", "b": "l", "c": "m", "d": "n"}, 7: {"a": "o", "b": "p"}, 8: {"a": "q", "b": "r"}}          # seeds: round -> variant -> suffix under /verif/seeded
 NUMBERS = {3: {"r1": "r8", "r2": "r9", "r3": "r10"}, 4: {"r1": "r11", "r2": "r12", "r3": "r13"}, 5: {"r1": "r14", "r2": "r15", "r3": "r16"},
-           6: {"r1": "r17", "r2": "r18", "r3": "r19", "r4": "r20", "r5": "r21"}, 7: {"r1": "r22", "r2": "r23", "r3": "r24"}}
+           6: {"r1": "r17", "r2": "r18", "r3": "r19", "r4": "r20", "r5": "r21"}, 7: {"r1": "r22", "r2": "r23", "r3": "r24"}, 8: {"r1": "r25", "r2": "r26"}}
 
 
 def variants(root):
